@@ -46,7 +46,13 @@ def make_evse(kind):
         return EVSE("S", max_rate=kind[2], min_rate=kind[1])
     if kind[0] == "D":
         return DeadbandEVSE("S", deadband_end=kind[1], max_rate=kind[2])
-    return FiniteRatesEVSE("S", list(kind[1]))
+    rates = list(kind[1])
+    evse = FiniteRatesEVSE("S", rates)
+    # the caller goes on using its own list: the EVSE must not alias it
+    rates.append(123.0)
+    if len(rates) > 1:
+        rates.pop(0)
+    return evse
 
 
 class _NullAlg:
@@ -60,7 +66,7 @@ class _NullAlg:
         return {}
 
 
-def run_impl(kind, cur, has_ev, pilot, voltage, period, newcomer_offset=0, rereg=False):
+def run_impl(kind, cur, has_ev, pilot, voltage, period, newcomer_offset=0, rereg=False, sibling=False):
     from datetime import datetime
     from acnportal.acnsim.models import EV, Battery
     from acnportal.acnsim.models.evse import InvalidRateError, StationOccupiedError
@@ -74,6 +80,22 @@ def run_impl(kind, cur, has_ev, pilot, voltage, period, newcomer_offset=0, rereg
         from acnportal.acnsim.models import EVSE as _EVSE, FiniteRatesEVSE as _FR
         other = _EVSE("S", max_rate=80, min_rate=2) if kind[0] != "C" else _FR("S", [4, 48])
         net.register_evse(other, 240, 30)
+    if sibling:
+        # a look-alike station (same class, same smallest positive rate and same maximum, other
+        # interior values) registered first: what is advertised for "S" must still be S's own table
+        from acnportal.acnsim.models import DeadbandEVSE as _DB, FiniteRatesEVSE as _FR2, EVSE as _EV2
+        if kind[0] == "F":
+            pos = sorted(set(float(r) for r in kind[1] if r > 0))
+            if len(pos) >= 2:
+                mid = (pos[0] + pos[-1]) / 2.0 + 0.125
+                sib = _FR2("T", [pos[0], mid, pos[-1]])
+            else:
+                sib = _FR2("T", list(kind[1]) + [0])
+        elif kind[0] == "D":
+            sib = _DB("T", deadband_end=kind[1] / 2.0 + 0.25, max_rate=kind[2])
+        else:
+            sib = _EV2("T", max_rate=kind[2], min_rate=kind[1])
+        net.register_evse(sib, voltage, 0)
     net.register_evse(evse, voltage, 0)
     calls = []
     ev = None
@@ -98,15 +120,17 @@ def run_impl(kind, cur, has_ev, pilot, voltage, period, newcomer_offset=0, rereg
     sim = Simulator(net, _NullAlg(), EventQueue(), datetime(2020, 1, 1), period=period, verbose=False)
     iface = Interface(sim)
     info = iface.infrastructure_info()
+    si = info.get_station_index("S")
     cont, allow = iface.allowable_pilot_signals("S")
     out.update(max=float(iface.max_pilot_signal("S")), min=float(iface.min_pilot_signal("S")),
                allow=[float(x) for x in allow], is_cont=bool(cont))
     adv = [evse.max_rate, evse.min_rate] + list(evse.allowable_pilot_signals) + \
-          [float(info.max_pilot[0]), float(info.min_pilot[0])] + [float(x) for x in info.allowable_pilots[0]]
+          [float(info.max_pilot[si]), float(info.min_pilot[si])] + [float(x) for x in info.allowable_pilots[si]]
     out["advertised_accepted"] = [bool(evse._valid_rate(a)) for a in adv]
     out["iface_matches_evse"] = (out["max"] == float(evse.max_rate) and out["min"] == float(evse.min_rate)
                                  and out["allow"] == [float(x) for x in evse.allowable_pilot_signals]
-                                 and float(info.max_pilot[0]) == out["max"] and float(info.min_pilot[0]) == out["min"])
+                                 and float(info.max_pilot[si]) == out["max"] and float(info.min_pilot[si]) == out["min"]
+                                 and [float(x) for x in info.allowable_pilots[si]] == out["allow"])
     # a newcomer arriving around the occupant's nominal departure, plugged in through the network
     ev2 = EV(10 + newcomer_offset, 30 + newcomer_offset, 50, "S", "sess2", Battery(100, 0, 100))
     perr = None
@@ -171,7 +195,8 @@ def gen_cases(rng, n, tier):
             amb = any(abs(F(pilot) - t) < F(1, 10**9) for t in ths)
             off = rng.choice([-5, -1, 0, 0, 1, 5])
             rereg = rng.random() < 0.2
-            impl = run_impl(kind, cur, has_ev, pilot, voltage, period, off, rereg)
+            sibling = rng.random() < 0.3
+            impl = run_impl(kind, cur, has_ev, pilot, voltage, period, off, rereg, sibling)
             coq = ("{| c_kind := %s; c_cur := %s; c_ev := %s; c_pilot := %s; c_voltage := %s; c_period := %s;\n"
                    "   i_accepted := %s; i_error := %s; i_current_pilot := %s; i_charge_calls := %s;\n"
                    "   i_max := %s; i_min := %s; i_allow := %s; i_is_cont := %s; i_plugin_err := %s; i_ev_after_plugin := %s |}") % (
@@ -180,7 +205,7 @@ def gen_cases(rng, n, tier):
                 coq_list([coq_list([q(x) for x in c]) for c in impl["charge_calls"]]),
                 q(impl["max"]), q(impl["min"]), coq_list([q(x) for x in impl["allow"]]), coq_bool(impl["is_cont"]),
                 coq_opt(impl["plugin_err"], coq_str), coq_opt(impl["ev_after_plugin"], lambda v: "%d%%Z" % v))
-            inp = dict(kind=kind, cur=cur, has_ev=has_ev, pilot=pilot, voltage=voltage, period=period, newcomer_offset=off, rereg=rereg)
+            inp = dict(kind=kind, cur=cur, has_ev=has_ev, pilot=pilot, voltage=voltage, period=period, newcomer_offset=off, rereg=rereg, sibling=sibling)
             cases.append(dict(input=inp, impl=impl, coq=coq, ambiguous=amb, kind="%s/%s" % (kind[0], "ev" if has_ev else "noev"),
                               sig=[kind, pilot, has_ev], nontrivial=True))
     return cases[:n]
@@ -235,5 +260,5 @@ def search(rng, budget_s, broken):
 def replay(w):
     inp = w["case"]
     kind = tuple(tuple(x) if isinstance(x, list) else x for x in inp["kind"])
-    impl = run_impl(kind, inp["cur"], inp["has_ev"], inp["pilot"], inp["voltage"], inp["period"], inp.get("newcomer_offset", 0), inp.get("rereg", False))
+    impl = run_impl(kind, inp["cur"], inp["has_ev"], inp["pilot"], inp["voltage"], inp["period"], inp.get("newcomer_offset", 0), inp.get("rereg", False), inp.get("sibling", False))
     return monitor(dict(input=dict(inp, kind=kind), impl=impl))
